@@ -118,26 +118,7 @@ func checkC07(c *Ctx) {
 
 	// (c)
 	c.expectNF(f, "C07.c", "transpileFiles", []string{`seq[slice.Fold(transpileOne, initParse(""), p0)]`}, "one initial state folded over the file list in order")
-	const PA = "ParseAll(psSetNewSrc(#0(sys.ReadFile(p1)), p0))"
-	const DEST = `path/filepath.Join(path/filepath.Dir(p1), (("gen_" + strings.TrimSuffix(".fo", path/filepath.Base(p1))) + ".go"))`
-	// the content written is masked: what it may be is decided by C16.b (the complete translation, strictly) and
-	// C05.f (independent of the path's spelling); this rule is about the state returned and the output's name
-	const specT1 = `seq[frt.Printf1("transpile: %s\n", p1)] if(#1(sys.ReadFile(p1)), seq[defer(OnParseError(p1)); if(strings.HasSuffix(".fo", p1), seq[if(not(sys.WriteFile(` + DEST + `, <content>)), seq[frt.Panicf1("Can't write file: %s", ` + DEST + `)])])] #0(` + PA + `), seq[frt.Panicf1("Can't open file: %s", p1)] p0)`
-	const whyT1 = "the state returned is ParseAll's; a .foi argument contributes declarations and writes nothing; X.fo yields gen_X.go next to it"
-	if nf, fn := f.NF("transpileOne"); fn != nil {
-		masked := nf
-		ir.Walk(f.N.Func(fn), func(t ir.Term) bool {
-			if app, ok := isCallTo(t, sysPath+".WriteFile"); ok && len(app.Args) == 2 {
-				masked = strings.ReplaceAll(masked, "sys.WriteFile("+ir.String(f.Path, app.Args[0])+", "+ir.String(f.Path, app.Args[1])+")", "sys.WriteFile("+ir.String(f.Path, app.Args[0])+", <content>)")
-			}
-			return true
-		})
-		masked = f.canon(masked)
-		c.R.Check(masked == f.canon(specT1), "C07.c", "transpileOne", "closed-form", c.Pos(f.M.Fset, fn.Decl.Pos()), whyT1+": "+masked,
-			"closed form is not the specification term ("+whyT1+"); "+diffHint(masked, f.canon(specT1)))
-	} else {
-		c.R.Undecided("C07.c", "transpileOne", "definition", f.M.Dir, "anchor function not found (renamed or removed): "+whyT1)
-	}
+	checkTranspileOneForm(c, f, "C07.c")
 	// (d) naming is part of the closed form above; single write path:
 	checkFileAPIs(c, "C07.d", f)
 
@@ -503,5 +484,29 @@ func checkScopeReaders(c *Ctx, f *FC, rule string) {
 		}
 		r.Check(len(extra) == 0, rule, sym, "who-may-read", "fc", sym+" is referenced only by "+strings.Join(sortedKeysB(refs[sym]), ", ")+" — where a name is referenced",
 			sym+" is also referenced by "+strings.Join(extra, ", ")+": the scope tables are consulted outside name resolution, so what this function decides or emits can depend on unrelated definitions that happen to be in scope (their presence, order, or the file they are in)")
+	}
+}
+
+// checkTranspileOneForm: the closed form of transpileOne with the written content masked (what the content may be
+// is decided by C16.b and C05.f): the state returned is ParseAll's, every X.fo argument — and only a .fo argument —
+// is written, to gen_X.go next to it, and a failed write or read ends in a diagnostic.
+func checkTranspileOneForm(c *Ctx, f *FC, rule string) {
+	const PA = "ParseAll(psSetNewSrc(#0(sys.ReadFile(p1)), p0))"
+	const DEST = `path/filepath.Join(path/filepath.Dir(p1), (("gen_" + strings.TrimSuffix(".fo", path/filepath.Base(p1))) + ".go"))`
+	const specT1 = `seq[frt.Printf1("transpile: %s\n", p1)] if(#1(sys.ReadFile(p1)), seq[defer(OnParseError(p1)); if(strings.HasSuffix(".fo", p1), seq[if(not(sys.WriteFile(` + DEST + `, <content>)), seq[frt.Panicf1("Can't write file: %s", ` + DEST + `)])])] #0(` + PA + `), seq[frt.Panicf1("Can't open file: %s", p1)] p0)`
+	const whyT1 = "the state returned is ParseAll's; a .foi argument contributes declarations and writes nothing; every X.fo yields gen_X.go next to it"
+	if nf, fn := f.NF("transpileOne"); fn != nil {
+		masked := nf
+		ir.Walk(f.N.Func(fn), func(t ir.Term) bool {
+			if app, ok := isCallTo(t, sysPath+".WriteFile"); ok && len(app.Args) == 2 {
+				masked = strings.ReplaceAll(masked, "sys.WriteFile("+ir.String(f.Path, app.Args[0])+", "+ir.String(f.Path, app.Args[1])+")", "sys.WriteFile("+ir.String(f.Path, app.Args[0])+", <content>)")
+			}
+			return true
+		})
+		masked = f.canon(masked)
+		c.R.Check(masked == f.canon(specT1), rule, "transpileOne", "closed-form", c.Pos(f.M.Fset, fn.Decl.Pos()), whyT1+": "+masked,
+			"closed form is not the specification term ("+whyT1+"); "+diffHint(masked, f.canon(specT1)))
+	} else {
+		c.R.Undecided(rule, "transpileOne", "definition", f.M.Dir, "anchor function not found (renamed or removed): "+whyT1)
 	}
 }
